@@ -83,7 +83,7 @@ def make_run_one(mode, P, pfs, cancel_caller, reduce=True):
     def run_one(chooser):
         loop = vloopx.XLoop(chooser)
         loop.anon_prefix = 't'
-        loop.fifo_plumbing = True
+        loop.ext_mode = True  # FIFO ready queue + environment-completed external events (see vloopx)
         ph = [('new', 0)] * n
         started = []
         never_started = set()
@@ -120,7 +120,7 @@ def make_run_one(mode, P, pfs, cancel_caller, reduce=True):
                 for j in range(k):
                     ph[i] = ('run', j + 1)
                     suspends_again(i)
-                    await asyncio.sleep(0)
+                    await vloopx.ext_yield()
                 if kind == 'raise':
                     st['fails'].append(i)
                     ph[i] = ('done', 'raised')
@@ -158,7 +158,7 @@ def make_run_one(mode, P, pfs, cancel_caller, reduce=True):
                         ph[i] = ('wind', j + 1)
                         suspends_again(i)
                         try:
-                            await asyncio.sleep(0)
+                            await vloopx.ext_yield()
                         except asyncio.CancelledError:
                             pass  # cancelled again while cleaning up: the clean-up goes on
                     if swallow:
@@ -183,6 +183,7 @@ def make_run_one(mode, P, pfs, cancel_caller, reduce=True):
                      f'pf states {ph}; caller cancelled: {st["ctl"]}')
 
         async def canceller(fut):
+            await vloopx.ext_yield()  # the third party cancels the inner future at a moment of the environment's choosing
             fut.cancel()
 
         async def pf2(i):
@@ -290,6 +291,8 @@ def make_run_one(mode, P, pfs, cancel_caller, reduce=True):
             return 'returned', r
 
         async def caller():
+            if cancel_caller:
+                await vloopx.ext_yield()  # lets the cancellation also arrive before the call is made
             sema = asyncio.Semaphore(P)
             nested = not mode.startswith('top_gather')
             fns = [functools.partial(pf, i) for i in range(n)]
@@ -301,7 +304,7 @@ def make_run_one(mode, P, pfs, cancel_caller, reduce=True):
                 st['caller'] = 'after-helper'
                 if nested and not cancel_caller:
                     # second call by the same caller, no exploration: run FIFO until the first call's tasks are gone
-                    loop.reorder_ready = False
+                    loop.ext_auto = True
                     for _ in range(200):
                         if all(t.done() for t in helper_tasks()):
                             break
@@ -318,6 +321,7 @@ def make_run_one(mode, P, pfs, cancel_caller, reduce=True):
                 st['caller'] = 'done'
 
         async def controller():
+            await vloopx.ext_yield()  # the cancellation arrives at a moment of the environment's choosing
             c = st['caller']
             st['ctl'] = {'new': 'before-call', 'in-helper': 'in-helper', 'after-helper': 'after-exit', 'done': 'after-exit'}[c]
             if c == 'in-helper' and not st['exited']:
@@ -375,8 +379,6 @@ def make_run_one(mode, P, pfs, cancel_caller, reduce=True):
 
         loop.state_fn = state
         loop.step_hook = hook
-        if reduce:
-            loop.independent = independent
         asyncio.Semaphore = RecordingSemaphore
         try:
             loop.run(setup(), max_steps=50)
@@ -541,7 +543,7 @@ def check(tier, seed, procs):
         'schedules_executed': execs,
         'distinct_outcomes': outcomes,
         'executions_by_feature': dict(sorted(cnt.items())),
-        'deviation_bound': 'unbounded (every order of task steps; asyncio callbacks FIFO; state-hash pruned)',
+        'deviation_bound': 'unbounded (every order of external-event completions over a FIFO ready queue, state-hash pruned)',
         'bounds': ('modes ' + '/'.join(MODES) + '; ' +
                    ('plus bodies that take 1-2 further yields to stop once cancelled (re-raising or swallowing the cancellation): 2 pfs in all '
                     'combinations with returns/raises, 3 pfs (two such bodies + one more) with a cancelled caller; and: '
@@ -566,7 +568,10 @@ def check(tier, seed, procs):
         'violations': violations,
         'assumptions': [
             'every execution is the real hailtop.utils code on a virtual asyncio loop with the stdlib asyncio.Semaphore/gather/wait',
-            'every order of task steps is explored; callbacks that are not task steps keep asyncio\'s FIFO order among themselves',
+            'only schedules real asyncio can produce: the ready queue is FIFO (a new task takes its first step in creation order, before '
+            'anything queued later); the environment decides when each external event completes (every yield of a harness body, '
+            'arrivals, the cancellation) and which of the timers due at one instant fires next, and appends that completion at the '
+            'end of the ready queue; every such order is explored',
             'bounded_gather2*/OnlineBoundedGather2 are called by a caller holding one permit (the repo\'s convention); bounded_gather is called bare',
             '"first" exception = the partial function that raised first in the executed schedule',
             'the second call by the same caller (made when the caller was not cancelled) is run in FIFO order only (no exploration)',
